@@ -394,6 +394,21 @@ func (e *specEnv) callExpr(n *ECall, hint types.Type) sv {
 		bk := u.regKey("Blk."+pn+id.Name+"."+f.Name, "Int")
 		return sv{Val: Val{t: "(- " + e.st.get(u, bk) + " " + e.old.get(u, bk) + ")", typ: tInt}}
 	}
+	if n.Fun == "rangepos" {
+		// rangepos(): the byte index the nearest enclosing range-over-string loop has reached
+		argn(0)
+		if e.fr == nil || e.at == nil {
+			sfail("rangepos() is only available in loop invariants")
+		}
+		for b := e.at; b != nil; b = b.Idom() {
+			for i := len(b.Instrs) - 1; i >= 0; i-- {
+				if r, ok := b.Instrs[i].(*ssa.Range); ok && e.fr.ranges[r] != nil && e.fr.ranges[r].str {
+					return sv{Val: Val{t: e.st.get(u, e.fr.ranges[r].key), typ: tInt}}
+				}
+			}
+		}
+		sfail("rangepos(): no enclosing range over a string")
+	}
 	if n.Fun == "visited" {
 		// visited(k): key k has been produced by the nearest enclosing map range loop
 		argn(1)
